@@ -494,6 +494,14 @@ func validateSecurityRequirement(ctx context.Context, input *RequestValidationIn
 			SecurityScheme:         securityScheme,
 			Scopes:                 scopes,
 		}); err != nil {
+			if data != nil {
+				// the callback may have read the body: leave a fresh one for the next reader
+				input.Request.ContentLength = int64(len(data))
+				input.Request.GetBody = func() (io.ReadCloser, error) {
+					return io.NopCloser(bytes.NewReader(data)), nil
+				}
+				input.Request.Body, _ = input.Request.GetBody() // no error return
+			}
 			return err
 		}
 	}
